@@ -666,6 +666,10 @@ func (sel *Selection) Set(v val.Value) error {
 		r.Clear = true
 	} else if sel.parent != nil {
 		// a leaf of a case: setting it selects that case, data of another case of the choice goes
+		// (unless the value is going to be refused: a rejected write leaves everything as it was)
+		if proceed, err := sel.Constraints.CheckFieldPreConstraints(&r, &ValueHandle{Val: v}); !proceed || err != nil {
+			return err
+		}
 		if err := (editor{}).clearOnDifferentChoiceCase(sel.parent, m); err != nil {
 			return err
 		}
